@@ -14,7 +14,8 @@ EXPLANATION = (
     "exactly (flag consumers, helper kind and bounds); (R2) the objective is min sum over non-ignored edges of scale(e)*eps(e) with "
     "scale = error_scaling.get(e, 1); (R3) reader = writer: get_objective_value recomputes the objective with the same per-edge factors the "
     "encoder uses (is_valid_solution compares the two); (R4) the bound w_max is at least the largest non-ignored weight and weights have the "
-    "requested numeric type.  NOT decided: optimality; sufficiency of w_max = k*max f as a bound for every optimum."
+    "requested numeric type; (R5) the constructor never writes to the caller's ignore list / options / "
+    "constraints or to their shared defaults, so the set of ignored (zero-scaled) edges is exactly what this call's arguments say.  NOT decided: optimality; sufficiency of w_max = k*max f as a bound for every optimum."
 )
 DECIDED = ["two-sided error rows and scaled objective present and complete", "reported objective recomputed with the same scaling as the model's objective",
            "product linking exact", "numeric type and weight bound provider"]
@@ -67,3 +68,6 @@ def check(prog: Program, rep):
     rep.rule("C07.R4", "weight bound provider and numeric type", floor=6)
     providers.wmax_provider(prog, rep, "C07.R4", MODELS)
     providers.numeric_type(prog, rep, "C07.R4", MODELS)
+    rep.rule("C07.R5", "the ignore set and options derive only from this call's arguments (no write to caller objects or shared defaults)", floor=6)
+    from rules.c18 import class_inputs_not_mutated
+    class_inputs_not_mutated(prog, rep, "C07.R5", MODELS)
